@@ -56,7 +56,7 @@ func vSlotJSON(kp int, s string) string {
 }
 
 func vDefJSON(label string, kp int, slot string) string {
-	return `{"description":"` + label + `"` + vSlotJSON(kp, slot) + `}`
+	return `{"description":"` + label + `","x-leaf":{"description":"leaf of ` + label + `"}` + vSlotJSON(kp, slot) + `}`
 }
 
 func vRefJSON(ref string) string {
@@ -128,7 +128,9 @@ func vWorldSchemas() *vWorld {
 	targets := []vTarget{{doc: vURoot, frag: "/definitions/A"}, {doc: vURoot, frag: "/definitions/B"}, {doc: vUSub, frag: "/definitions/C%20d"}, {doc: vUFar, frag: "/definitions/D"}}
 	if vParam("nested_targets", 1) == 1 {
 		// a whole document, and a pointer below a definition
-		targets = append(targets, vTarget{vUSub, "", true}, vTarget{vURoot, "/definitions/A/description", true})
+		// (and a pointer to an object inside a definition: its text continues the text of a reference that may be
+		// on the stack of references being unfolded, without closing any cycle)
+		targets = append(targets, vTarget{vUSub, "", true}, vTarget{vURoot, "/definitions/A/description", true}, vTarget{vUSub, "/definitions/C%20d/x-leaf", true})
 	}
 	a := vPickRef("A", vURoot, targets)
 	b := vPickRef("B", vURoot, targets)
@@ -235,4 +237,115 @@ func (w *vWorld) outWorld(root *Swagger) (*vWorld, bool) {
 
 func vIsAbsURL(s string) bool {
 	return strings.HasPrefix(s, "file://") || strings.HasPrefix(s, "http://") || strings.HasPrefix(s, "https://")
+}
+
+// ---- family 3: imports — a path item imported from another directory whose path-level parameters,
+// operation parameters, status-code and default responses hold relative references of their own, and
+// parameter / response chains of up to three hops that change directory at every hop ----
+
+const vUDeep = "file:///w/sub/deep/b.json"
+
+func vWorldImports(which int) *vWorld {
+	vUseURLSet(0)
+	alt := func(active bool, tag string, alts ...string) string {
+		if !active {
+			return alts[0]
+		}
+		return alts[vChoose(len(alts), tag)]
+	}
+	ps, rs := which == 0, which == 1
+	pi, ri := ps || which == 2, rs || which == 2 // mode 2: only the members of the imported path item vary, all at once
+	p0 := alt(ps, "P0", `{"name":"p0","in":"query","type":"string"}`, `{"$ref":"sub/a.json#/parameters/Q1"}`)
+	q1 := alt(ps, "Q1", `{"name":"q1","in":"header","type":"string"}`, `{"$ref":"deep/b.json#/parameters/D1"}`)
+	d1 := alt(ps, "D1", `{"name":"d1","in":"body","schema":{"$ref":"#/definitions/E"}}`, `{"$ref":"../../../x/c.json#/parameters/F1"}`)
+	pl := alt(pi, "PL", `{"$ref":"deep/b.json#/parameters/D1"}`, `{"$ref":"#/parameters/Q2"}`, `{"name":"pl","in":"body","schema":{"$ref":"deep/b.json#/definitions/E"}}`)
+	op := alt(pi, "OP", `{"$ref":"#/parameters/Q1"}`, `{"name":"op","in":"body","schema":{"$ref":"#/definitions/C"}}`, `{"$ref":"../root.json#/parameters/D1"}`)
+	r0 := alt(rs, "R0", `{"description":"r0"}`, `{"$ref":"sub/a.json#/responses/S1"}`)
+	s1 := alt(rs, "S1", `{"description":"s1"}`, `{"$ref":"deep/b.json#/responses/T1"}`)
+	t1 := alt(rs, "T1", `{"description":"t1","schema":{"$ref":"#/definitions/C"}}`, `{"$ref":"../../../x/c.json#/responses/F1"}`)
+	r200 := alt(ri, "R200", `{"$ref":"deep/b.json#/responses/T1"}`, `{"description":"in200","schema":{"$ref":"deep/b.json#/definitions/E"}}`, `{"$ref":"#/responses/S2"}`)
+	rdef := alt(ri, "RDEF", `{"$ref":"deep/b.json#/responses/T1"}`, `{"description":"indef","schema":{"$ref":"deep/b.json#/definitions/E"}}`, `{"$ref":"#/responses/S2"}`)
+	w := &vWorld{root: vURoot, docs: map[string]string{}}
+	w.docs[vURoot] = `{"swagger":"2.0","info":{"title":"t","version":"1"},` +
+		`"paths":{"/p":{"$ref":"sub/a.json#/x-items/I1"},"/q":{"get":{"parameters":[{"$ref":"#/parameters/P0"}],"responses":{"200":{"$ref":"#/responses/R0"}}}}},` +
+		`"definitions":{"C":{"description":"root-C"},"E":{"description":"root-E"}},` +
+		`"parameters":{"P0":` + p0 + `,"D1":{"name":"root-d1","in":"query","type":"string"},"Q2":{"name":"root-q2","in":"query","type":"integer"}},` +
+		`"responses":{"R0":` + r0 + `,"T1":{"description":"root-t1"},"S2":{"description":"root-s2"}}}`
+	w.docs[vUSub] = `{"definitions":{"C":{"description":"sub-C"},"E":{"description":"sub-E"}},` +
+		`"parameters":{"Q1":` + q1 + `,"Q2":{"name":"q2","in":"body","schema":{"$ref":"#/definitions/C"}},"D1":{"name":"sub-d1","in":"query","type":"string"}},` +
+		`"responses":{"S1":` + s1 + `,"S2":{"description":"s2","schema":{"$ref":"deep/b.json#/definitions/E"}},"T1":{"description":"sub-t1"}},` +
+		`"x-items":{"I1":{"parameters":[` + pl + `],"get":{"parameters":[` + op + `],"responses":{"200":` + r200 + `,"default":` + rdef + `}}}}}`
+	w.docs[vUDeep] = `{"definitions":{"E":{"description":"deep-E"},"C":{"description":"deep-C"}},` +
+		`"parameters":{"D1":` + d1 + `},"responses":{"T1":` + t1 + `}}`
+	w.docs[vUFar] = `{"definitions":{"C":{"description":"far-C"},"E":{"description":"far-E"}},` +
+		`"parameters":{"F1":{"name":"f1","in":"body","schema":{"$ref":"#/definitions/C"}}},` +
+		`"responses":{"F1":{"description":"f1","schema":{"$ref":"#/definitions/C"}}}}`
+	return w
+}
+
+// allowedLoads: the canonical URLs of the documents that some $ref of the world designates (RFC 3986,
+// relative to the document that textually contains the $ref), plus the root
+func (w *vWorld) allowedLoads() map[string]bool {
+	ok := map[string]bool{w.root: true}
+	for u := range w.docs {
+		d, has := w.genericDoc(u)
+		if !has {
+			continue
+		}
+		var refs [][2]string
+		vAllRefs(d, "", &refs)
+		for _, r := range refs {
+			if id, fine := vResolveRef(u, r[1]); fine {
+				ok[id.doc] = true
+			}
+		}
+	}
+	return ok
+}
+
+// ---- family 4: one document, a path item with all seven methods (each with a referenced parameter and
+// response), a path-level parameter, and an operation without a responses object ----
+
+var vVerbs = []string{"get", "put", "post", "delete", "options", "head", "patch"}
+
+func vWorldOps(faulty bool) *vWorld {
+	vUseURLSet(0)
+	// the slot: the target of one parameter reference of the operation that has no responses
+	ts := []vTarget{{doc: vURoot, frag: "/parameters/P1", single: true}}
+	if faulty {
+		ts = append(ts, vTarget{doc: vURoot, frag: "/parameters/Nope", single: true}, vTarget{doc: "file:///w/missing.json", frag: "/parameters/X", single: true})
+	}
+	bare := vPickRef("BARE", vURoot, ts)
+	if bare == "" {
+		bare = "#/parameters/P1"
+	}
+	ops := ""
+	for i, v := range vVerbs {
+		if i > 0 {
+			ops += ","
+		}
+		ops += `"` + v + `":{"operationId":"` + v + `","parameters":[{"$ref":"#/parameters/P1"}],"responses":{"200":{"$ref":"#/responses/R1"},"default":{"description":"d-` + v + `","schema":{"$ref":"#/definitions/A"}}}}`
+	}
+	w := &vWorld{root: vURoot, docs: map[string]string{}, fail: map[string]bool{}}
+	w.docs[vURoot] = `{"swagger":"2.0","info":{"title":"t","version":"1"},` +
+		`"paths":{"/all":{"parameters":[{"$ref":"#/parameters/P2"}],` + ops + `},"/bare":{"post":{"operationId":"bare","parameters":[{"$ref":"` + bare + `"},{"name":"b","in":"body","schema":{"$ref":"#/definitions/A"}}]}}},` +
+		`"definitions":{"A":{"description":"la","properties":{"b":{"$ref":"#/definitions/B"}}},"B":{"description":"lb"}},` +
+		`"parameters":{"P1":{"name":"p1","in":"body","schema":{"$ref":"#/definitions/B"}},"P2":{"name":"p2","in":"query","type":"string"}},` +
+		`"responses":{"R1":{"description":"r1","schema":{"$ref":"#/definitions/A"}}}}`
+	return w
+}
+
+// ---- family 5: a single in-memory document (no location given to the expander) ----
+
+func vWorldLocalDoc() *vWorld {
+	vUseURLSet(0)
+	kp := vChoose(vParam("kwpos", len(vKwPos)), "kwpos")
+	ts := []vTarget{{doc: vURoot, frag: "/definitions/A", single: true}, {doc: vURoot, frag: "/definitions/B", single: true}, {doc: vURoot, frag: "/definitions/A/x-leaf", single: true}}
+	a := vPickRef("A", vURoot, ts)
+	b := vPickRef("B", vURoot, ts)
+	w := &vWorld{root: vURoot, docs: map[string]string{}}
+	w.docs[vURoot] = `{"swagger":"2.0","info":{"title":"t","version":"1"},` +
+		`"paths":{"/p":{"get":{"parameters":[{"name":"b","in":"body","schema":{"$ref":"#/definitions/A"}}],"responses":{"200":{"description":"ok","schema":{"$ref":"#/definitions/B"}}}}}},` +
+		`"definitions":{"A":` + vDefJSON("la", kp, vRefJSON(a)) + `,"B":` + vDefJSON("lb", kp, vRefJSON(b)) + `}}`
+	return w
 }
